@@ -191,7 +191,11 @@ def render_listener(prog, role):
                 body.append(render_cb(prog, cbid))
     if init:
         body.insert(0, "    _sim_takes_tag = True\n    def __init__(self, _tag=None):\n" + "".join(init))
-    if prog.get("listener_eq"):
+    if prog.get("listener_eq_all"):
+        # every listener object compares (and hashes) equal to every other one, across classes
+        body.append("    def __eq__(self, other):\n        return hasattr(other, '_sim_role')\n"
+                    "    def __hash__(self):\n        return 11\n")
+    elif prog.get("listener_eq"):
         # value-based equality: two listener objects of this class compare (and hash) equal
         body.append("    def __eq__(self, other):\n        return type(other) is type(self)\n"
                     "    def __hash__(self):\n        return 7\n")
